@@ -735,20 +735,32 @@ func crashDropAll(c *Ctx, witness bool) error {
 	defer os.RemoveAll(root)
 	var stages []string
 	var cerr error
-	err = h.db.VerifDropAllSteps(func(stage string) {
-		if stage == "vlog-dropped" {
-			return
-		}
+	snap := func(stage string) {
 		stages = append(stages, stage)
 		if e := copyDir(h.dir, filepath.Join(root, stage)); e != nil {
 			cerr = e
 		}
+	}
+	// the production DropAll; the directory is copied at its verifPoint("dropall.*") lines
+	// (db.go dropAll), i.e. after each persistence effect
+	snap("prepared")
+	badger.VerifSetController(&badger.VerifController{
+		Point: func(name string, args ...uint64) {
+			if strings.HasPrefix(name, "dropall.") && name != "dropall.vlog-dropped" {
+				snap(strings.TrimPrefix(name, "dropall."))
+			}
+		},
 	})
+	err = h.db.DropAll()
+	h.installController()
 	if err != nil {
 		return err
 	}
 	if cerr != nil {
 		return cerr
+	}
+	if len(stages) != 4 {
+		return fmt.Errorf("DropAll hook points seen: %v (expected prepared + 3 dropall.* points)", stages)
 	}
 	for _, st := range stages {
 		cut := crashStages[st]
